@@ -17,15 +17,15 @@ SR(name, q) == [op |-> "SR", s1 |-> "", br |-> FALSE, s2 |-> "", body |-> name, 
 EX(name, who) == [op |-> "EX", s1 |-> "", br |-> FALSE, s2 |-> "", body |-> name, he |-> FALSE, eqn |-> "",
                   inc |-> TRUE, who |-> who]
 
-(* quick: 27 actions, histories of length 3 *)
+(* quick: 26 actions, histories of length 3 *)
 MC_AlphaQuick == {
     CF("",  FALSE, "",  "A",   TRUE),       \* A
     CF("-", FALSE, "",  "A",   TRUE),       \* -A
     CF("-", TRUE,  "-", "A",   FALSE),      \* -(-A)       not income
     CF("+", FALSE, "",  "B",   TRUE),       \* +B
-    CF("-", TRUE,  "",  "B",   FALSE),      \* -(B)        not income
+    CF("+", FALSE, "",  "OTHER__A", TRUE),  \* +OTHER__A   another sector's A: not the local A
+    CF("-", FALSE, "",  "_7__A",    TRUE),  \* -_7__A      the same in alias form
     CF("+", FALSE, "",  "A*B", TRUE),       \* +A*B
-    CF("-", TRUE,  "",  "A*B", TRUE),       \* -(A*B)
     CF("-", FALSE, "",  "2*A", TRUE),       \* -2*A        numeric factor: the sign belongs to the whole term
     CF("",  TRUE,  "-", "2*A", FALSE),      \* (-2*A)      not income
     CF("-", TRUE,  "",  "A/2", TRUE),       \* -(A/2)
@@ -37,7 +37,7 @@ MC_AlphaQuick == {
     CFE("-", TRUE,  "-", "B", D1, TRUE),
     EX("A", "S"), EX("A*B", "S"), EX("A", "T"), EX("A", "O"),
     AV("A", ""), AV("A", "0.0"), AV("A", D3), AV("B", D4),        \* D3, D4, D5 begin like a zero literal
-    SR("A", D5), SR("A", "0.0"), SR("B", "") }
+    SR("A", D5), SR("A", "0.0") }
 
 (* the five sign / bracket spellings of the statement, and the bare name *)
 Form(s1, br, s2) == [s1 |-> s1, br |-> br, s2 |-> s2]
@@ -46,7 +46,7 @@ FInner == Form("", TRUE, "-")     FOuter == Form("-", TRUE, "")     FBoth  == Fo
 Forms6 == {FPlain, FPlus, FMinus, FInner, FOuter, FBoth}
 Forms4 == {FPlus, FMinus, FInner, FBoth}
 
-(* thorough, length 3: 58 actions *)
+(* thorough, length 3: 60 actions *)
 MC_AlphaMid ==
     { CF(f.s1, f.br, f.s2, "A", i) : f \in {FPlus, FMinus}, i \in BOOLEAN }
     \cup { CF("", TRUE, "-", "A", TRUE), CF("-", TRUE, "-", "A", FALSE) }
@@ -55,24 +55,25 @@ MC_AlphaMid ==
     \cup { CF(f.s1, f.br, f.s2, "A/B", i) : f \in {FPlus, FMinus}, i \in BOOLEAN }
     \cup { CF("-", TRUE, "-", "A/B", FALSE) }
     \cup { CF(f.s1, f.br, f.s2, b, TRUE) : f \in {FPlus, FMinus}, b \in {"B", "A*B", "B/A"} }
-    \cup { CF("-", TRUE, "-", b, FALSE) : b \in {"B/A", "A*B"} }
+    \cup { CF(f.s1, f.br, f.s2, b, TRUE) : f \in {FPlus, FMinus}, b \in Decorated }
+    \cup { CF("-", TRUE, "-", "OTHER__A", FALSE) }
     \cup { CFE(f.s1, f.br, f.s2, "A", q, TRUE) : f \in {FPlus, FMinus}, q \in {D1, D2} }
     \cup { CFE("+", FALSE, "", "A", D1, FALSE), CFE("+", FALSE, "", "A", D3, TRUE) }
-    \cup { CFE("", FALSE, "", "A", "", FALSE), CFE("", FALSE, "", "B", D1, TRUE), CFE("-", TRUE, "-", "B", "", TRUE) }
+    \cup { CFE("", FALSE, "", "A", "", FALSE), CFE("-", TRUE, "-", "B", "", TRUE) }
     \cup { AV("A", q) : q \in Eqns } \cup { AV("B", D4) }
-    \cup { SR("A", D1), SR("A", D3), SR("A", "0.0"), SR("A", ""), SR("B", D2) }
-    \cup { EX("A", "S"), EX("A*B", "S"), EX("A/B", "S"), EX("B/A", "S"), EX("A", "T"), EX("A/B", "T"), EX("A", "O") }
+    \cup { SR("A", D1), SR("A", D3), SR("A", "0.0"), SR("A", "") }
+    \cup { EX("A", "S"), EX("A*B", "S"), EX("A/B", "S"), EX("B/A", "S"), EX("A", "T"), EX("A/B", "T"), EX("A", "O"), EX("OTHER__A", "S") }
 
 (* thorough, length 4: 20 actions *)
 MC_AlphaLen4 == {
     CF("",  FALSE, "",  "A",   TRUE),  CF("-", FALSE, "",  "A",   TRUE),  CF("-", TRUE,  "-", "A",   FALSE),
-    CF("+", FALSE, "",  "B",   TRUE),  CF("+", FALSE, "",  "A*B", TRUE),  CF("-", FALSE, "",  "2*A", TRUE),
+    CF("+", FALSE, "",  "OTHER__A", TRUE),  CF("+", FALSE, "",  "A*B", TRUE),  CF("-", FALSE, "",  "2*A", TRUE),
     CF("+", FALSE, "",  "A/B", TRUE),  CF("-", TRUE,  "",  "B/A", TRUE),  CF("",  TRUE,  "-", "A/2", FALSE),
     CFE("+", FALSE, "", "A", D1, TRUE), CFE("-", FALSE, "", "A", D2, TRUE), CFE("", FALSE, "", "A", "", FALSE),
     EX("A", "S"), EX("A/B", "S"), EX("A", "T"),
     AV("A", ""), AV("A", D3), AV("A", D5), SR("A", D1), SR("A", "0.0") }
 
-(* thorough, length 2: every action of the instance (all six spellings, all ten bodies,  *)
+(* thorough, length 2: every action of the instance (all six spellings, all twelve bodies,  *)
 (* all nine right-hand-side texts for AddVariable / SetRHS)                              *)
 MC_AlphaFull ==
     { CF(f.s1, f.br, f.s2, b, i) : f \in Forms6, b \in Bodies, i \in BOOLEAN }
